@@ -789,7 +789,13 @@ theorem ext_types (doc : Doc) (d : SchemaD) (bts : List TypeD)
 
 /-- **build_exact_partial**: a valid document WITH extensions whose DEFINITIONS build on their own (what is left of
     finding S8) builds, and the schema is exactly the declared content: every extension merged into its target in
-    document order, every default value evaluated in the extended types. -/
+    document order, every default value evaluated in the extended types.
+    OMITS (closed elsewhere): `ValidExt` takes the built definitions `bts` and three facts about them (`baseBuilds`,
+    `noEagerCycleBase`, `rootsOk`) as premises — derived in `build_exact_of_baseDefaults` / `build_exact_final`
+    (`SdlOK`), and from the rules of the specification alone + the S8/S1b residue in `build_exact_spec`
+    (Props/C11_valid.lean; each residue premise necessary: `residue_necessary`); the flags — `ignore_extensions=True` is
+    `build_exact_ignoreExtensions` (Props/C11_flags.lean). Still open: `additional_types` (supplied types) in the exactness
+    statement. -/
 theorem build_exact_partial (doc : Doc) (d : SchemaD) (bts : List TypeD) (v : ValidExt doc d bts) : build doc = .ok d := by
   obtain ⟨c, hc, hct, hcd, hcs⟩ := collect_ok doc v.uniqueTypes v.uniqueDirectives v.oneSchema v.noBuiltinNames
   obtain ⟨hts, hds, hd⟩ := declared_parts doc d v.declares
